@@ -1,7 +1,95 @@
 import Driver.Common
 import Driver.PacketIO
+import Rtp.Pred.C02
+import Rtp.Pred.C05
 namespace Rtp.Kinds.CoreB
-open Rtp Rtp.Proto
+open Rtp Rtp.Proto Rtp.Model
 
-def handlers : List (String × Handler) := []
+/-! ### C02
+
+  `c02.parse <buf> <list bytes prevs> => recv(fresh) recv(reused)`
+     recv := hres pres
+     hres := ok <header> <n> <nExt> <list int locs> <list u8 ids> <list obytes gets> | err <k> | panic
+     pres := ok <packet> <nExt> <int payOff> <list int locs> <list u8 ids> <list obytes gets> | err <k> | panic
+-/
+
+/-- a value returned by GetExtension: `nil` and the empty slice are identified -/
+def rdVal : Rd (Option Bytes) := do let v ← Rd.obytes; pure (Pred.C02.canonV v)
+
+def rdHdrOk : Rd Pred.C02.HdrOk := do
+  let h ← rdHeader; let n ← Rd.nat; let ne ← Rd.nat; let locs ← Rd.list Rd.int
+  let ids ← Rd.list Rd.u8; let gets ← Rd.list rdVal
+  pure { h := h, n := n, nExt := ne, locs := locs, ids := ids, gets := gets }
+
+def rdPktOk : Rd Pred.C02.PktOk := do
+  let p ← rdPacket; let ne ← Rd.nat; let off ← Rd.int; let locs ← Rd.list Rd.int
+  let ids ← Rd.list Rd.u8; let gets ← Rd.list rdVal
+  pure { p := p, nExt := ne, payOff := off, locs := locs, ids := ids, gets := gets }
+
+def rdRecv : Rd Pred.C02.Recv := do
+  let h ← Rd.resC rdHdrOk; let p ← Rd.resC rdPktOk
+  pure { hun := h, pun := p }
+
+def c02parse : Handler :=
+  mkHandler (do let b ← Rd.bytes; let prev ← Rd.list Rd.bytes; pure (b, prev))
+    (do let f ← rdRecv; let r ← rdRecv; pure ({ fresh := f, reused := r } : Pred.C02.Obs))
+    (fun (b, prev) => Pred.C02.modelObs b prev)
+    (fun (b, prev) o => Pred.C02.pred b prev o)
+
+/-! ### C05
+
+  `c05.ops <start> <n> op* => <startOk> <n> (id bytes)* reads <n> step* final`
+     start := hdr <header> | wire <list bytes prevs> <bytes>
+     op    := set <id> <bytes> | del <id>
+     reads := <bool X> <u16 profile> <list u8 ids> <n> (id obytes)*
+     step  := (ok | err <k> | panic) reads
+     final := <bool X> <u16 profile> <res bytes marshal> (ok | err <k> | panic) <n> (id obytes)*
+-/
+
+open Rtp.Spec.OrderedMap (Op) in
+def rdOp : Rd Op := do
+  let t ← Rd.tok
+  match t with
+  | "set" => do let id ← Rd.u8; let v ← Rd.bytes; pure (.set id v)
+  | "del" => do let id ← Rd.u8; pure (.del id)
+  | _ => Rd.fail
+
+def rdStart : Rd Pred.C05.Start := do
+  let t ← Rd.tok
+  match t with
+  | "hdr" => do let h ← rdHeader; pure (.hdr h)
+  | "wire" => do let ps ← Rd.list Rd.bytes; let b ← Rd.bytes; pure (.wire ps b)
+  | _ => Rd.fail
+
+def rdIdVal : Rd (UInt8 × Option Bytes) := do let id ← Rd.u8; let v ← rdVal; pure (id, v)
+
+def rdReads : Rd Pred.C05.Reads := do
+  let x ← Rd.bool; let prof ← Rd.u16
+  let ids ← Rd.list Rd.u8; let gets ← Rd.list rdIdVal
+  pure { x := x, profile := prof, ids := ids, gets := gets }
+
+def rdStepObs : Rd Pred.C05.StepObs := do
+  let r ← Rd.resC Rd.unit; let rs ← rdReads
+  pure { res := r, reads := rs }
+
+def rdFinal : Rd Pred.C05.FinalObs := do
+  let x ← Rd.bool; let prof ← Rd.u16
+  let m ← Rd.resC Rd.bytes; let un ← Rd.resC Rd.unit; let wg ← Rd.list rdIdVal
+  pure { extension := x, profile := prof, marshal := m, un := un, wireGets := wg }
+
+def rdC05Obs : Rd Pred.C05.Obs := do
+  let ok ← Rd.bool
+  let start ← Rd.list (do let id ← Rd.u8; let v ← Rd.bytes; pure (id, v))
+  let init ← rdReads
+  let steps ← Rd.list rdStepObs
+  let fin ← rdFinal
+  pure { startOk := ok, start := start, init := init, steps := steps, final := fin }
+
+def c05ops : Handler :=
+  mkHandler (do let s ← rdStart; let ops ← Rd.list rdOp; pure (s, ops)) rdC05Obs
+    (fun (s, ops) => Pred.C05.modelObs s ops)
+    (fun (s, ops) o => Pred.C05.pred s ops o)
+    (fun (s, ops) => Pred.C05.wf s && Pred.C05.finalWf s ops)
+
+def handlers : List (String × Handler) := [("c02.parse", c02parse), ("c05.ops", c05ops)]
 end Rtp.Kinds.CoreB
